@@ -58,6 +58,13 @@ def sites(tree):
                 out.append((idx, "const", line, f"{n.value}->{not n.value}"))
             elif isinstance(n.value, int) and -2 <= n.value <= 12:
                 out.append((idx, "const", line, f"{n.value}->{n.value + 1}"))
+        if isinstance(n, ast.Constant) and isinstance(n.value, str) and n.value and not is_docstring(parents.get(n), n) \
+                and not isinstance(parents.get(n), (ast.arg, ast.AnnAssign, ast.Subscript)) and line:
+            out.append((idx, "strdel", line, f"string constant loses its first character: {n.value[:30]!r}"))
+            if " " in n.value.strip() or n.value != n.value.strip():
+                out.append((idx, "strspace", line, f"string constant loses its blanks: {n.value[:30]!r}"))
+            if any(c in n.value for c in "'%_\\"):
+                out.append((idx, "strmeta", line, f"string constant loses its quote/wildcard/backslash characters: {n.value[:30]!r}"))
         if isinstance(n, ast.Call) and len(n.args) >= 2 and not any(isinstance(a, ast.Starred) for a in n.args[:2]) and id(n) in in_func:
             out.append((idx, "swapargs", line, "swap first two arguments"))
         if isinstance(n, (ast.Expr, ast.Assign, ast.AugAssign)) and id(n) in in_func and not (isinstance(n, ast.Expr) and isinstance(n.value, ast.Constant)):
@@ -90,6 +97,12 @@ def apply(tree, idx, op):
         n.test = ast.UnaryOp(op=ast.Not(), operand=n.test)
     elif op == "const":
         n.value = (not n.value) if isinstance(n.value, bool) else n.value + 1
+    elif op == "strdel":
+        n.value = n.value[1:] if len(n.value) > 1 else "x"
+    elif op == "strspace":
+        n.value = n.value.replace(" ", "")
+    elif op == "strmeta":
+        n.value = "".join(c for c in n.value if c not in "'%_\\") or "x"
     elif op == "swapargs":
         n.args[0], n.args[1] = n.args[1], n.args[0]
     elif op == "dropstmt":
@@ -156,7 +169,7 @@ def main(argv):
     seed = int(opt("--seed", "1"))
     jobs = int(opt("--jobs", "2"))
     out = opt("--out", "/tmp/mutsweep.jsonl")
-    ops = set(opt("--ops", "cmp,bool,not,negif,const,swapargs,dropstmt,retnone,addsub,except").split(","))
+    ops = set(opt("--ops", "cmp,bool,not,negif,const,swapargs,dropstmt,retnone,addsub,except,strdel,strspace,strmeta").split(","))
     rels = [f for f in files.split(",") if f]
     if not rels:
         for d, _, fs in os.walk(os.path.join(REPO, "odata_query")):
